@@ -1,14 +1,5 @@
-"""Texts for MANIFEST.json."""
+"""Texts for MANIFEST.json (per-property texts live in tools/props/Cnn.json under "manifest")."""
+from propconf import PROPS
 HOOK_COMMITS = ["394d8ea"]
 NOT_APPLICABLE = {}
-REGEX_NOTE = ("Trusted: Coq kernel; the translator (regexp/syntax parse tree -> Coq regex); the hand-written model tied by "
-              "differential execution (extracted OCaml vs the Go implementation) on an exhaustive small scope + random stream; "
-              "extraction (ExtrOcamlBasic). Modelled, not verified: Go's regexp engine and UTF-8 decoding.")
-META = {
-    "C18": {
-        "text": "Theorems C18_const / C18_prefix hold for every byte string: whatever the model of the two constructors returns satisfies the byte-level recogniser [A-Za-z][-_A-Za-z0-9]* and equals prefix-hyphen-value. The two regular expressions are regenerated from the source on every run and tied to the specification by a verified language-inclusion checker evaluated by the kernel; the constructor bodies are tied by correspondence.",
-        "design_ref": "DESIGN.md section 4, C18; section 3.2",
-        "note": REGEX_NOTE,
-        "technique": "Coq proof over regenerated regexes (verified derivative-based inclusion check) + differential correspondence",
-    },
-}
+META = {k: v["manifest"] for k, v in PROPS.items()}
